@@ -330,7 +330,13 @@ class World(object):
     # ------------------------------------------------------------------ observation
     def on_commit(self, which):
         self.commit_count += 1
-        self.log.append([which])
+        # what an independent reader of the file sees from this commit on (the model's commit entries carry the
+        # committed snapshot: every commit of every event is compared, not only the ones a crash event lands on)
+        try:
+            snap = self.dump_chan(self.reader_c) if which == "C" else self.dump_usage(self.reader_u)
+        except Exception as e:
+            snap = {"unreadable": repr(e)}
+        self.log.append([which, snap])
         if self.crash_at is not None and self.commit_count == self.crash_at:
             if self.crash_stmt:
                 self.stmt_left = self.crash_stmt     # die some statements after this commit (on_statement)
